@@ -17,12 +17,12 @@ import (
 
 func init() {
 	simrt.Register(&simrt.Scenario{
-		Prop: "C05", Name: "relay-faults", Count: tiered(450, 30000),
+		Prop: "C05", Name: "relay-faults", Count: tiered(450, 240000),
 		Run: func(rc *simrt.RunCtx) { c05Run(rc, true) }, MaxOps: 6 << 20, Horizon: 6 * time.Hour,
 		Doc: "real Server.Accept/Client.Dial + ServerConn/ClientConn + GBN + NoiseGrpcConn over the stub relay with drop / delay / stream errors / failing stream creation / full mailbox until a tape-chosen instant; application loops retry as gRPC does; stream equality, ciphertext-only and progress oracles",
 	})
 	simrt.Register(&simrt.Scenario{
-		Prop: "C05", Name: "relay-clean", Count: tiered(150, 6000),
+		Prop: "C05", Name: "relay-clean", Count: tiered(150, 48000),
 		Run: func(rc *simrt.RunCtx) { c05Run(rc, false) }, MaxOps: 6 << 20, Horizon: 6 * time.Hour,
 		Doc: "same stack and workload over a fault-free relay (separate sub-batch)",
 	})
